@@ -35,6 +35,10 @@ def gen_config(rng, tier, i=0, **fix):
                tones=[dict(chan=float(rng.uniform(start_chan - 0.3, start_chan + nchan - 0.7)), level=float(rng.uniform(0.05, 0.5)),
                            drift=0.0) for _ in range(int(rng.integers(0, 3)))],
                seed=int(rng.integers(2 ** 31)))
+    if common.stratum(i, 105, 6) == 0:
+        # a digitiser wider than one byte (valid: RealQuantizer documents any num_bits) whose values leave -128..127
+        cfg['dig_bits'] = int(common.pick(rng, [12, 16, 10]))
+        cfg['dig_fwhm'] = float(common.pick(rng, [900.0, 300.0, 32.0]))
     cfg.update(fix)
     return cfg
 
